@@ -1,6 +1,27 @@
 """Single table of claimed checks; bin/mkmanifest renders MANIFEST.json from it."""
 
 CHECKS = {
+    "C11": dict(
+        level="model_checking",
+        technique="TLA+ generator GenMod (all import DAGs x import form x path spelling x import placement); TLA+ reference semantics MSLang!RunProject (first executed import runs the module body to completion, one shared export map per module); TLA+ loader machine MSModules (cache hit/miss, pending, running stack) with invariants InitAtMostOnce / OneInstance / InitBeforeImporterContinues; TraceMod validates the hook-H3 event trace of every real execution (run in memory and compile+execute from files) against MSModules; CheckLang judges outputs",
+        text="Every project of the enumerated space is executed by both paths; its output is compared with the specification and its loader events are validated step by step against the loader state machine whose invariants are the property.",
+        note="Trusts the H3 hook placement (at the cache decision) and MSLang's module semantics. Quick covers <= 3 modules exhaustively; negative variants (non-exported names, reassigning exports) belong to C03/C10.",
+        design="5/C11",
+    ),
+    "C04": dict(
+        level="model_checking",
+        technique="TLA+ spec MSCodec (source-literal decoder, binary/text writers, the split_string_v2 tokenizer as a character-step machine); TLC BFS over all strings up to length 3/4 over the format-special alphabet checks the round-trip theorem ReadArgs(WriteArgs(a)) = a for every argument and every 3-way cut into argument vectors; every string is replayed as a source literal through `run` and `compile`+`execute`; TLC judge CheckCodec compares stdout, exit and the H4 dumps of what each loader holds, and binds the model's Decode to the compiler's emitted argument",
+        text="Exhaustive small-scope model checking of the transcribed writer/reader state machines, bound to the implementation per enumerated string (model prediction = emitted argument; in-memory bytecode = bytecode read back from the file, instruction by instruction, including code that is never executed), plus whole-program equivalence on the example corpus and generated programs.",
+        note="Trusts the H4 dump hook; NUL is outside the alphabet (cannot occur in source); nondeterministic programs (hash order, addresses) are excluded from whole-program comparison; multi-module projects come from the example corpus only.",
+        design="5/C04",
+    ),
+    "C18": dict(
+        level="model_checking",
+        technique="same TLA+ spec MSCodec: text writer, transpiler tokenizer + re-encoder, loader; TLC checks RoundTripText for all strings/cuts; replay of every literal through raw-text -> transpile -> execute against `run`; TLC judge CheckCodec",
+        text="Exhaustive small-scope model checking of the three-stage text pipeline on the specification plus per-string and whole-program replay (single-module programs) comparing output, exit status and loaded bytecode with the in-memory path.",
+        note="As C04; the opcode-name table is exercised through every instruction that occurs in the corpus and generated programs (all names the compiler emits), not through hand-written bytecode.",
+        design="5/C18",
+    ),
     "C13": dict(
         level="exploration",
         technique="TLA+ generator GenHeap (state = history of list/map operations on two containers and a re-pointable/clonable alias; BFS over all histories to a bound + -simulate long ones, two-phase: enumerate histories, expand the selected ones into programs); TLA+ heap model in MSLang (lists = sequences, maps = finite entry lists, references) evaluated by TLC; replay on the real binary; TLC judge CheckLang",
